@@ -80,9 +80,9 @@ var rtSizes = []int{0, 1, 2, 3, 4, 5, 6, 7, 8, 9, 10, 11, 12, 13, 14, 15, 16, 17
 	131071, 131072, 131073, 131088, 196608, 262144, 262145}
 
 type snapChild struct {
-	c              *ctx
-	src, dst, dec  *arena
-	maxLen         int
+	c             *ctx
+	src, dst, dec *arena
+	maxLen        int
 }
 
 func (s *snapChild) fail(class, what string, w map[string]interface{}) {
